@@ -122,6 +122,16 @@ def check_lines(ctx, out, names, nt):
                     "<Invalid ZonedDateTime>", "<Error>", "<Error>"]
             if got != want:
                 ctx.violation("placeholders", {"line": "ERR"}, "error placeholders %r want %r" % (got, want))
+        elif k == "ERR3":
+            f = body.split("|")
+            kinds = ["LocalDate", "LocalTime", "LocalDateTime", "OffsetDateTime", "ZonedDateTime", "ZonedDateTime", "OffsetDateTime"]
+            for kind, cell in zip(kinds, f[1:]):
+                e, hx = cell.split()
+                if e == "1":
+                    nt.add(("err3", kind, f[0].split()[-1] == "99999"))
+                    if unhex(hx) != "<Invalid %s>" % kind:
+                        ctx.violation("error-value-prints:" + kind, {"line": "ERR3 " + f[0]},
+                                      "an error %s (components %s; isError() is true) printed %r instead of its placeholder" % (kind, f[0], unhex(hx)))
         elif k == "ERR2":
             got = [unhex(x) for x in body.split("|")]
             if got != ["<Invalid ZonedDateTime>", "<Invalid OffsetDateTime>"]:
@@ -151,10 +161,16 @@ def run(ctx):
     thorough = ctx.tier == "thorough"
     rnd = random.Random(ctx.seed)
     lines = ["ERR"]
+    # error values with exactly one invalid part (and valid controls)
+    for comp in ((2018, 8, 31, 13, 48, 1), (2018, 13, 1, 0, 0, 0), (2018, 0, 1, 0, 0, 0), (2018, 1, 0, 0, 0, 0), (2018, 1, 32, 0, 0, 0),
+                 (2018, 1, 1, 25, 0, 0), (2018, 1, 1, 0, 60, 0), (2018, 1, 1, 0, 0, 60), (2060, 6, 1, 12, 0, 0), (1990, 6, 1, 12, 0, 0),
+                 (2127, 12, 31, 23, 59, 59), (1872, 1, 1, 0, 0, 0)):
+        for off in (0, -480, 99999):
+            lines.append("ERR3 %d %d %d %d %d %d %d" % (comp + (off,)))
     # all dates x 4 times
     d = dtm.date(1873, 1, 1)
     end = dtm.date(2127, 12, 31)
-    times = [(0, 0, 0), (23, 59, 59), (12, 34, 56), (9, 5, 7)]
+    times = [(0, 0, 0), (23, 59, 59), (12, 34, 56), (9, 5, 7), (24, 0, 0)]      # 24:00:00 is a valid LocalTime
     while d <= end:
         for h, mi, s in times:
             lines.append("LDT %d %d %d %d %d %d" % (d.year, d.month, d.day, h, mi, s))
@@ -169,6 +185,8 @@ def run(ctx):
         mo = rnd.randrange(1, 13)
         dd = rnd.randrange(1, calendar.monthrange(y, mo)[1] + 1)
         h, mi, s = rnd.randrange(24), rnd.randrange(60), rnd.randrange(60)
+        if rnd.randrange(10) == 0:
+            h, mi, s = 24, 0, 0
         for off in offs:
             lines.append("ODT %d %d %d %d %d %d %d" % (y, mo, dd, h, mi, s, off))
     # zoned
